@@ -191,6 +191,21 @@ def termination_job(seed):
             continue
         if it.n != needed or len(out) != n:
             fails.append({'replay': 'none', 'key': 'termination:' + qtext, 'query': qtext, 'expected': '%d pulls, %d records' % (needed, n), 'observed': '%d pulls, %d records' % (it.n, len(out))})
+    # UNNEST under a bound (quantifier of C02: {WHERE, JOIN, UNNEST}): one input record offers several output records; the refusal
+    # may come in the middle of a record and must still stop the scan.  (query, records emitted, records pulled)
+    for qtext, n, needed in [('select top 3 a1, UNNEST([a1, a2])', 3, 2), ('select UNNEST([a1, a2]) limit 2', 2, 2),
+                             ('select top 1 UNNEST([a2, a2, a2])', 1, 1), ('select top 4 a2, UNNEST([a1, a2]) where a1 != "0"', 4, 4)]:
+        it = Counting(needed + 50)
+        out = []
+        w = eng.TableWriter(out)
+        n_eval += 1
+        try:
+            eng.query(qtext, it, w, [])
+        except Exception as e:
+            fails.append({'replay': 'none', 'key': 'termination:' + qtext, 'query': qtext, 'expected': 'stops after the bound is reached', 'observed': repr(e)})
+            continue
+        if it.n != needed or len(out) != n:
+            fails.append({'replay': 'none', 'key': 'termination:' + qtext, 'query': qtext, 'expected': '%d pulls, %d records' % (needed, n), 'observed': '%d pulls, %d records' % (it.n, len(out))})
     return {'evaluations': n_eval, 'failures': fails}
 
 
